@@ -201,8 +201,22 @@ type audit struct {
 func hasGuardQuiet(c *Check, fnSpec, want string) bool {
 	fn := c.F(fnSpec)
 	for s := range c.P.FA(fn).GuardSet() {
-		if s == want || strings.HasSuffix(s, "] ⇒ "+want) {
+		if s == want {
 			return true
+		}
+		// a guard inside a loop over the validated list is as good as an unconditional one; a guard placed under any
+		// other condition is not (it does not reject when that condition is false)
+		if strings.HasSuffix(s, "] ⇒ "+want) {
+			ctx := strings.TrimSuffix(s, "] ⇒ "+want)
+			loopOnly := true
+			for _, part := range strings.Split(strings.TrimPrefix(ctx, "["), " && ") {
+				if !strings.Contains(part, "μ{") && !strings.Contains(part, "Iterator.Valid(") {
+					loopOnly = false
+				}
+			}
+			if loopOnly {
+				return true
+			}
 		}
 	}
 	return false
@@ -315,7 +329,7 @@ func c15(c *Check) {
 		{fn: "x/aggregate.InitGenesis", kind: "panic", what: "module account has not been set", reason: "wiring error (maccPerms), not input"},
 		{fn: "eth/types.(Header).ToEthHeader", kind: "ext-may-panic", what: "core/types.BytesToBloom", reason: "Header.ValidateBasic bounds the bloom length", needs: []need{{ethHVB, "reject (256 < len($0.Bloom))"}}, check: ethValidated},
 		{fn: "eth/types.rlpHash", kind: "type-assert", what: "sync.(*Pool).Get(", reason: "the pool's New function returns a KeccakState"},
-		{fn: "rvesting/keeper.(Keeper).InitGenesis", kind: "panic", what: "AccAddressFromBech32($2.From)#1", reason: "ValidateGenesis parses From", needs: []need{{"x/rvesting/types.ValidateGenesis", "reject (cosmos-sdk/types.AccAddressFromBech32($0.From)#1 != nil)"}}},
+		{fn: "rvesting/keeper.(Keeper).InitGenesis", kind: "panic", what: "AccAddressFromBech32($2.From)#1", reason: "ValidateGenesis parses From", needs: []need{{"x/rvesting/types.ValidateGenesis", "[(0 != len($0.From))] ⇒ reject (cosmos-sdk/types.AccAddressFromBech32($0.From)#1 != nil)"}}},
 		{fn: "rvesting/module.BeginBlocker", kind: "ext-may-panic", what: "cosmos-sdk/types.NewCoins", reason: "NewCoins() of no coins cannot be invalid",
 			check: func(c *Check) (bool, string) {
 				bb := c.F("x/rvesting/module.BeginBlocker")
